@@ -50,6 +50,7 @@ type c15Op struct {
 	ExecSeq   int
 	ExecErr   string // error reply of the store, if any
 	Delivered bool   // the whole reply was handed to the client before the connection died
+	Reported  bool   // renew-loop strata: the leader loop's wait-closer was already closed (loss reported) when the call began
 	// lease key as the store held it right before / after the execution (for the resign rule)
 	Before, After c15Snap
 }
@@ -90,6 +91,7 @@ type c15Contender struct {
 	closeQ   []cluster.Cluster // clients to be closed by the scheduler goroutine (keeps "close" log lines ordered)
 	exited   atomic.Bool
 	parent   usync.WaitCloser
+	loopWait atomic.Pointer[usync.WaitCloser] // wait-closer of the leader/follower loop currently running (renew-loop strata)
 
 	cl cluster.Cluster
 	el cluster.Election
@@ -133,6 +135,9 @@ func (s *c15Sim) rel(ns int64) string {
 func (c *c15Contender) begin(kind string) *c15Op {
 	s := c.sim
 	op := &c15Op{Who: c.idx, Kind: kind, Inv: 2 * s.step.Load()}
+	if w := c.loopWait.Load(); w != nil && (*w).IsClosed() {
+		op.Reported = true
+	}
 	c.mu.Lock()
 	op.Tag = c.tag
 	c.inflight = op
@@ -332,7 +337,9 @@ func (c *c15Contender) incarnation() {
 				syncerWait.Close(errors.Join(lerr, syncer.ErrBreak))
 			}
 		}
+		c.loopWait.Store(&syncerWait)
 		s.loop.Ticker(syncerWait, role, elect, c15StoreAddr, s.key) // real clusterTicker
+		c.loopWait.Store(nil)
 		err := syncerWait.Error()
 		syncerWait.Close(nil)
 		if role == cluster.RoleLeader {
@@ -906,6 +913,38 @@ func (s *c15Sim) oracle(ops []*c15Op) *Violation {
 				return s.viol("C15.overlap", "two contenders were told they hold the lease for intersecting intervals",
 					"%s was told leader for [%s,%s) by %s and %s for [%s,%s) by %s (ttl %ds): the intervals intersect in [%s,%s). History (store order):%s",
 					s.cs[a.who].id, s.rel(a.start), s.rel(a.end), s.opString(a.op), s.cs[b.who].id, s.rel(b.start), s.rel(b.end), s.opString(b.op), s.ttl, s.rel(lo), s.rel(hi), hist(nil))
+			}
+		}
+	}
+
+	// (3) "a failed renewal is reported as loss of leadership" at the level of the real leader loop (cmd/syncer.go
+	// clusterTicker / clusterRenew, renew-loop strata): once a renewal has failed — whatever the reason: not the holder
+	// any more, store error, lost reply — the instance must stop acting as leader, i.e. its loop ends; the next call of
+	// that instance is its Resign or a new Campaign, never another renewal issued from the same leader loop.
+	if s.loop != nil {
+		// The loop repeats a failed renewal once, at once (one more attempt inside the same tick): two failures in a row
+		// are the loop's own retry, a third renewal after them means the loss was not reported — unless the loop's
+		// wait-closer was already closed when that renewal began (the loss WAS reported; the ticker goroutine may run
+		// one more round when its tick and the closed context are ready together, which harms nothing).
+		failed := map[int][]*c15Op{}
+		for _, o := range ops {
+			if !o.Done && o.Kind != "renew" {
+				continue
+			}
+			switch o.Kind {
+			case "renew":
+				if prev := failed[o.Who]; len(prev) >= 2 && !o.Reported {
+					return s.viol("C15.loss_not_reported", "failed renewals did not end the leader loop",
+						"%s: renewals %s and %s failed (%v) but the instance went on as leader: its next call is another renewal (%s) instead of a resignation or a new campaign. History (store order):%s",
+						s.cs[o.Who].id, s.opString(prev[0]), s.opString(prev[1]), prev[1].Err, s.opString(o), hist(nil))
+				}
+				if o.Done && !o.success() {
+					failed[o.Who] = append(failed[o.Who], o)
+				} else if o.Done {
+					delete(failed, o.Who)
+				}
+			case "campaign", "resign", "connect":
+				delete(failed, o.Who)
 			}
 		}
 	}
